@@ -433,6 +433,11 @@ pub struct E2eCase {
     /// environment variable VAR: 0 unset, 1 value "D", 2 value "I"
     pub def_env: bool,
     pub inl_env: bool,
+    /// where the observing test case comes from: 0 the document given on the command line,
+    /// 1 / 2 a document prepended / appended with -P / -A, 3 / 4 one named by `prepend:` /
+    /// `append:` in the front-matter of the given document (the given one then only runs `true`)
+    #[serde(default)]
+    pub via: u8,
 }
 
 fn e2e_strategy() -> BoxedStrategy<E2eCase> {
@@ -446,8 +451,11 @@ fn e2e_strategy() -> BoxedStrategy<E2eCase> {
         0u8..3,
         any::<bool>(),
         any::<bool>(),
+        prop_oneof![4 => Just(0u8), 1 => Just(1u8), 1 => Just(2u8), 1 => Just(3u8), 1 => Just(4u8)],
     )
-        .prop_map(|(cram, cli_stream, cli_crlf, def_stream, inl_stream, def_crlf, inl_crlf, def_env, inl_env)| E2eCase {
+        .prop_map(|(cram, cli_stream, cli_crlf, def_stream, inl_stream, def_crlf, inl_crlf, def_env, inl_env, via)| (cram && via == 0, cli_stream, cli_crlf, def_stream, inl_stream, def_crlf, inl_crlf, def_env, inl_env, via))
+        .prop_map(|(cram, cli_stream, cli_crlf, def_stream, inl_stream, def_crlf, inl_crlf, def_env, inl_env, via)| E2eCase {
+            via,
             cram,
             cli_stream,
             cli_crlf,
@@ -569,7 +577,34 @@ fn check_e2e(c: &E2eCase) -> V {
     };
     let path = dir.path().join(if c.cram { "doc.t" } else { "doc.md" });
     std::fs::write(&path, &doc).ok();
-    args.push(path.to_string_lossy().to_string());
+    let mut doc = doc;
+    if c.via == 0 {
+        args.push(path.to_string_lossy().to_string());
+    } else {
+        // the observing document is pulled in by a trivial main document
+        let main = dir.path().join("main.md");
+        let fm = match c.via {
+            3 => "---\nprepend:\n  - doc.md\n---\n\n",
+            4 => "---\nappend:\n  - doc.md\n---\n\n",
+            _ => "",
+        };
+        let main_text = format!("{fm}# main\n\n```scrut\n$ true\n```\n");
+        std::fs::write(&main, &main_text).ok();
+        // (-P / -A take several values: the document path goes first)
+        args.push(main.to_string_lossy().to_string());
+        match c.via {
+            1 => {
+                args.push("-P".into());
+                args.push(path.to_string_lossy().to_string());
+            }
+            2 => {
+                args.push("-A".into());
+                args.push(path.to_string_lossy().to_string());
+            }
+            _ => {}
+        }
+        doc = format!("{doc}\n--- main.md (the document given on the command line):\n{main_text}");
+    }
     let argv: Vec<&str> = args.iter().map(|s| s.as_str()).collect();
     let run = match run_scrut(&dir, &argv, 60) {
         Ok(r) => r,
@@ -583,9 +618,11 @@ fn check_e2e(c: &E2eCase) -> V {
         .nt(conflict)
         .label(if c.cram { "cram" } else { "markdown" })
         .label_if(c.def_env && c.inl_env, "environment_conflict")
-        .label_if(conflict, "two_layers_set_a_key");
+        .label_if(conflict, "two_layers_set_a_key")
+        .label_if(c.via != 0, "test_case_of_a_prepended_or_appended_document");
     let kinds = json_result_kinds(&run.stdout).unwrap_or_default();
-    if run.code == Some(0) && kinds == vec!["success".to_string()] {
+    let want = vec!["success".to_string(); if c.via == 0 { 1 } else { 2 }];
+    if run.code == Some(0) && kinds == want {
         v
     } else {
         V::fail(format!(
@@ -593,7 +630,7 @@ fn check_e2e(c: &E2eCase) -> V {
             stream_name(stream),
             run.code,
             kinds,
-            &args[..args.len() - 1],
+            &args,
             truncate(&run.stdout, 1500),
             truncate(&run.stderr, 400)
         ))
